@@ -101,6 +101,23 @@ class Batch(Default):
         return [2]
 
 
+class BatchNaN(Batch):
+    """batch exact GP whose targets miss different positions per batch element; every operation runs under the 'mask'
+    observation policy, `pred_fill` predicts under 'fill' (the per-element policy) in between"""
+
+    name = "batch_nan"
+
+    def __init__(self, seed):
+        super().__init__(seed)
+        self.y = self.y.clone()
+        self.y[0, 1] = float("nan")
+        self.y[1, 4] = float("nan")
+        self.y[1, 6] = float("nan")
+
+    def context(self):
+        return S.observation_nan_policy("mask")
+
+
 class SKI(Default):
     name = "ski"
 
@@ -220,7 +237,7 @@ class LMC(SVGP):
         self.y = torch.stack([self.y, self.y * 0.5, -self.y], -1)
 
 
-FAMILIES = {c.name: c for c in (Default, DefaultIterative, Batch, SKI, SKIDyn, SGPR, SVGP, SVGPU, SVGPMF, SVGPBD, LMC)}
+FAMILIES = {c.name: c for c in (Default, DefaultIterative, Batch, BatchNaN, SKI, SKIDyn, SGPR, SVGP, SVGPU, SVGPMF, SVGPBD, LMC)}
 
 EXACT_OPS = ["pred", "pred_fpv", "pred_nodetach", "pred_skipvar", "pred_eager", "pred_batch", "train_step", "set_data", "set_targets", "load_sd", "load_sd_same", "fantasy", "prior", "backward", "train_eval"]
 VAR_OPS = ["pred", "pred_batch", "pred_skipvar", "pred_eager", "train_step", "load_sd", "load_sd_same", "prior", "backward", "train_eval"]
@@ -265,6 +282,9 @@ def apply_op(fam, m, op, state):
         return predict(m, f.xs, (False, True, False, False))
     elif op == "pred_batch":
         return predict(m, f.xsb)
+    elif op == "pred_fill":
+        with S.observation_nan_policy("fill"):
+            return predict(m, f.xs)
     elif op == "train_step":
         m.train()
         lik = m.likelihood
